@@ -3,6 +3,9 @@
 import json, os, subprocess
 V = os.path.dirname(os.path.dirname(os.path.abspath(__file__)))
 TEXT = {
+ 'C13': ('structure-ledger monitor: dense snapshots of both objects after every step of copy / copy_like / link / unlink / proxy / mutate histories; sharing decided behaviourally (mutate one side, observe the other); pickle round trips compared field by field',
+         'Exploration: seeded cases over copy() independence under 3-10 mutations, the copy_like source/target/package/phase matrix, proxy / flow_proxy / all link flag subsets / unlink, and pickles of Stream, MultiStream, Reaction, ParallelReaction, Chemical, Chemicals, Thermo.',
+         'Class-changing conversions on one side of a link are excluded (C12); copy_like targets list every source chemical.'),
  'C10': ('reference-model monitor: PositionalIndex model (names resolved from the chemical list and group table only) vs real indexer reads/writes, with cache-eviction floods counted by an IndexCacheProbe and fresh-twin comparisons',
          'Exploration: seeded chemical sets (1-8 chemicals, aliases, groups), every key form on single- and multi-phase molar and mass indexers, write-then-read with complement check, cross-package mixing interleaved, floods of >=700/3000 distinct tuple keys per indexer (evictions counted; zero evictions = inconclusive), comparison with brand-new indexers.',
          'Names are taken from the Chemical objects with the documented uniqueness rule; phase-summed writes (documented IndexError) are not judged.'),
